@@ -9,11 +9,14 @@ CONSTANT Tier                       \* 1 = quick, 2 = thorough
 TAB == "\t"
 T(rfc, delim, explicit, headers) == [kind |-> "text", rfc |-> rfc, delim |-> delim, explicit |-> explicit, headers |-> headers, name |-> "text"]
 Ch(name) == [kind |-> "channel", rfc |-> FALSE, delim |-> <<TAB>>, explicit |-> FALSE, headers |-> FALSE, name |-> name]
+\* gzip = the same text, compressed: representability and bytes (after decompression) are those of the text format
+Gz(rfc) == [kind |-> "text", rfc |-> rfc, delim |-> IF rfc THEN <<",">> ELSE <<TAB>>, explicit |-> FALSE, headers |-> FALSE,
+            name |-> IF rfc THEN "gzip-rfc4180" ELSE "gzip-tsv"]
 Fmts == << T(FALSE, <<TAB>>, FALSE, FALSE), T(FALSE, <<",">>, TRUE, FALSE), T(FALSE, <<"|">>, TRUE, FALSE),
            T(FALSE, <<"|", "|">>, TRUE, FALSE), T(TRUE, <<",">>, FALSE, FALSE), T(TRUE, <<"|">>, TRUE, FALSE),
            T(TRUE, <<"|", "|">>, TRUE, FALSE), T(FALSE, <<TAB>>, FALSE, TRUE), T(TRUE, <<",">>, FALSE, TRUE),
            T(FALSE, <<",">>, TRUE, TRUE),
-           Ch("gzip-tsv"), Ch("gzip-rfc4180"), Ch("json-list"), Ch("json-object"), Ch("sqlite") >>
+           Gz(FALSE), Gz(TRUE), Ch("json-list"), Ch("json-object"), Ch("sqlite") >>
 
 Alphabet == {"a", Q, ",", TAB, NL, BS, "[", "]", "$", "(", ")", "|", " "}
 Sym(n) == UNION {[1..k -> Alphabet] : k \in 0..n}
@@ -77,7 +80,7 @@ KChan ==
     A   |-> {<<a>> : a \in AVals(1, 1)},
     E   |-> EVals,
     RA  |-> {<<Nil>>} \cup {<<Rec(<<a, IV("5")>>)>> : a \in AVals(1, 1)} ]
-KOf(fi) == IF Fmts[fi].kind = "channel" THEN KChan ELSE IF Fmts[fi].headers THEN KHdr ELSE KFull
+KOf(fi) == IF Fmts[fi].name # "text" THEN KChan ELSE IF Fmts[fi].headers THEN KHdr ELSE KFull
 AttrNames == <<Cs("x"), Cs("y"), Cs("z")>>
 Attrs(kn) == SubSeq(AttrNames, 1, Len(KTypes[kn]))
 
